@@ -1268,7 +1268,22 @@ impl Visitor<Diagnostic> for LibraryRenderer {
         };
         self.write_ws(op);
 
-        self.visit_expr_kind(&node.term)
+        // The operand of a unary operator is a primary expression, so an
+        // operand that is itself a unary expression keeps its parentheses
+        // (- ( - a ) is not - - a)
+        let mut term = &node.term;
+        while let dsl::textual::ExprKind::Expression(inner) = term {
+            term = inner;
+        }
+        let nested = matches!(term, dsl::textual::ExprKind::UnaryOp(_));
+        if nested {
+            self.write_ws("(");
+        }
+        self.visit_expr_kind(&node.term)?;
+        if nested {
+            self.write_ws(")");
+        }
+        Ok(())
     }
 
     fn visit_function(&mut self, node: &dsl::textual::Function) -> Result<Self::Value, Diagnostic> {
